@@ -334,6 +334,8 @@ def build_request(ex, meta):
     for k in ("index_recv", "drop_calls", "opaque_macros", "mut_params", "str_params", "into_vec", "iter_on", "keyed_mut_iter"):
         if k in o:
             r[k] = o[k].split(",")
+    if "param_types" in o:
+        r["param_types"] = dict(x.replace("~", " ").split(":", 1) for x in o["param_types"].split(","))
     if "field_types" in o:
         r["field_types"] = dict(x.replace("~", " ").split(":", 1) for x in o["field_types"].split(","))
     if o.get("copied_to_map") == "1":
